@@ -120,10 +120,11 @@ fn op(line: &str) -> String {
                 let map: ParamsMap = m.params().into_iter().collect();
                 map.get("id")
             }));
-            let once: Option<String> = String::from_utf8(
-                percent_encoding::percent_decode_str(&seg).collect::<Vec<u8>>(),
-            )
-            .ok();
+            // decoded exactly once; bytes that are not UTF-8 may only be replaced, never panic
+            let once: Option<String> = Some(
+                String::from_utf8_lossy(&percent_encoding::percent_decode_str(&seg).collect::<Vec<u8>>())
+                    .into_owned(),
+            );
             match r {
                 Ok(Some(v)) => {
                     let verdict = if Some(&v) == once.as_ref() { "ok" } else { "fail not-once" };
